@@ -21,6 +21,18 @@ constexpr int FFT_CACHE_SIZE = DSPLIB_FFT_CACHE_SIZE;
 
 static_assert(FFT_CACHE_SIZE > 0);
 
+#ifdef DSPLIB_VERIF
+//verification hooks (read-only view of the calling thread's plan caches + cache access events)
+using cache_observer_t = void (*)(int cache_id, int n, int event);   //event: 0 - miss, 1 - hit, 2 - insert
+cache_observer_t g_verif_observer = nullptr;
+thread_local const LRUCache<int, std::shared_ptr<BaseFftPlanC>>* g_verif_fft_cache = nullptr;
+thread_local const LRUCache<int, std::shared_ptr<BaseFftPlanR>>* g_verif_rfft_cache = nullptr;
+#define DSPLIB_VERIF_EVENT(cache_id, n, event)                                                                           \
+    if (g_verif_observer != nullptr) {                                                                                 \
+        g_verif_observer(cache_id, n, event);                                                                          \
+    }
+#endif
+
 std::shared_ptr<BaseFftPlanC> _get_fft_plan(int n) {
     if (isprime(n)) {
         return std::make_shared<PrimesFftC>(n);
@@ -52,9 +64,16 @@ std::shared_ptr<BaseFftPlanC> create_fft_plan(int n) {
 
     //TODO: use weak_ptr cache to prevent duplication
     thread_local LRUCache<int, std::shared_ptr<BaseFftPlanC>> cache{FFT_CACHE_SIZE};
+#ifdef DSPLIB_VERIF
+    g_verif_fft_cache = &cache;
+    DSPLIB_VERIF_EVENT(0, n, cache.exists(n) ? 1 : 0);
+#endif
     if (!cache.exists(n)) {
         auto plan = _get_fft_plan(n);
         cache.put(n, plan);
+#ifdef DSPLIB_VERIF
+        DSPLIB_VERIF_EVENT(0, n, 2);
+#endif
         return plan;
     }
     return cache.get(n);
@@ -66,9 +85,16 @@ std::shared_ptr<BaseFftPlanR> create_rfft_plan(int n) {
     }
 
     thread_local LRUCache<int, std::shared_ptr<BaseFftPlanR>> cache{FFT_CACHE_SIZE};
+#ifdef DSPLIB_VERIF
+    g_verif_rfft_cache = &cache;
+    DSPLIB_VERIF_EVENT(1, n, cache.exists(n) ? 1 : 0);
+#endif
     if (!cache.exists(n)) {
         auto plan = _get_rfft_plan(n);
         cache.put(n, plan);
+#ifdef DSPLIB_VERIF
+        DSPLIB_VERIF_EVENT(1, n, 2);
+#endif
         return plan;
     }
     return cache.get(n);
@@ -121,5 +147,27 @@ arr_cmplx rfft(const arr_real& x) {
 arr_cmplx rfft(const arr_real& x, int n) {
     return fft(x, n);
 }
+
+#ifdef DSPLIB_VERIF
+namespace verif {
+
+void set_cache_observer(void (*fn)(int cache_id, int n, int event)) {
+    g_verif_observer = fn;
+}
+
+std::vector<int> fft_cache_keys() {
+    return (g_verif_fft_cache != nullptr) ? g_verif_fft_cache->keys() : std::vector<int>{};
+}
+
+std::vector<int> rfft_cache_keys() {
+    return (g_verif_rfft_cache != nullptr) ? g_verif_rfft_cache->keys() : std::vector<int>{};
+}
+
+int fft_cache_capacity() {
+    return FFT_CACHE_SIZE;
+}
+
+}   // namespace verif
+#endif
 
 }   // namespace dsplib
